@@ -4,8 +4,9 @@ root(a) := a if a.base is None else a.base     (NumPy: the array that owns a's m
 A view produced from array g by a view-op shares g's memory: root(view) = root(g)          [axiom about view-ops, see `replay`]
 
 Tensor.grad (getter), for a tensor t with B := t._base:
-  B is None                                                       -> returns t._grad, writes nothing
-  B is not None (t is a view):
+  B is None, or B is a constant tensor                            -> returns t._grad, writes nothing  (C01: a non-constant view of a
+                                                                    constant base still reports the gradient it received)
+  B is a non-constant tensor (t is a view of it):
     POST  the result r is None, or root(r) is B._grad              (a view's gradient is a window onto ITS BASE'S CURRENT gradient:
                                                                     an array belonging to an earlier gradient of B is never returned)
     POST  r is None only if B._grad is None, or t._creator is None (graph cleared), or the parent's gradient is None
@@ -149,7 +150,9 @@ def harness(ctx: Ctx):
     if rz is None:
         return
     cur = ctx.heap
-    is_view = base0 != 0
+    # a view of a CONSTANT base has nothing to window onto (constants never hold a gradient, C10): it reports its own gradient, like an owner
+    base_const = H0[("Tensor", "_constant")][base0]
+    is_view = z3.And(base0 != 0, z3.Not(base_const))
     # ---- owners ---------------------------------------------------------------------------------------------------------
     ctx.oblige("C06.getter.owner.returns_own_grad", z3.Implies(z3.Not(is_view), rz == H0[("Tensor", "_grad")][me.ref]), **meta)
     ctx.oblige("C06.getter.owner.writes_nothing", z3.Implies(z3.Not(is_view), z3.And(*[cur[k] == H0[k] for k in H0])), **meta)
